@@ -5,7 +5,10 @@ Histories over a FakedWBEMConnection: the start state is a generated
 repository (1-3 populated namespaces, optional Interop namespace with or
 without the namespace provider, a class forest with subclasses, overrides,
 binary/ternary associations, instances, single- and multi-namespace
-association instances); every step is one repository-changing call - either
+association instances; with the namespace provider also namespaces and
+CIM_Namespace instances that do not match each other: an instance left over
+from a removed namespace, a namespace without instance, two instances for
+one namespace); every step is one repository-changing call - either
 meant to succeed (it then advances the state, so later steps start from a
 reachable state) or carrying one injected reason for rejection.  Whenever a
 call raises, the canonical dump of the whole repository must equal the dump
@@ -44,7 +47,13 @@ RULE = (
     "Interop namespace with/without CIMNamespaceProvider, 0-4 association "
     "instances within and across namespaces, created either with "
     "CreateInstance (copies in every referenced namespace) or with "
-    "add_cimobjects (copies in some namespaces only). Then 1..N steps, each "
+    "add_cimobjects (copies in some namespaces only); with the namespace "
+    "provider 0-3 extra names where the pairing namespace <-> CIM_Namespace "
+    "instance is deliberately uneven (instance left behind by "
+    "remove_namespace() or stored with add_cimobjects() without namespace, "
+    "namespace added with add_namespace() without instance, provider-"
+    "created empty namespace, two instances with the same Name). Then 1..N "
+    "steps, each "
     "ONE repository-changing call drawn while looking at the current "
     "repository, either meant to succeed (advances the state, so later "
     "steps start from reachable states) or carrying one injected rejection "
@@ -52,7 +61,14 @@ RULE = (
     "DeleteQualifier, Create/Modify/DeleteInstance (incl. associations "
     "across 2-3 namespaces where a namespace lacks the class / already "
     "holds / lacks the instance, namespace names in other lexical case, "
-    "CIM_Namespace instances served by the namespace provider), "
+    "CIM_Namespace instances served by the namespace provider: Create"
+    "Instance whose Name is new / an existing namespace with or without "
+    "instance / a leftover instance without namespace (same instance, "
+    "slashes, other lexical case, other values of the other keys, plus a "
+    "second rejection reason), DeleteInstance of instances of empty / "
+    "non-empty / Interop / non-existing namespaces, remove_namespace of "
+    "provider-created namespaces, add_namespace of a name that only has "
+    "an instance, add_cimobjects of a CIM_Namespace instance), "
     "add_namespace/remove_namespace, add_cimobjects(one object). "
     "mof_batches: compile_mof_string / compile_mof_file (one file, or a "
     "file of #pragma include's) / compile_schema_classes with 1-8 "
@@ -86,7 +102,18 @@ ASSUMPTIONS = [
     "trailing slashes (documented as equivalent)",
     "states are reached through the public API only (CreateClass, "
     "CreateInstance, add_cimobjects, compile_mof_string, add_namespace, "
-    "install_namespace_provider)",
+    "remove_namespace, install_namespace_provider); this includes states in "
+    "which the CIM_Namespace instances of the Interop namespace and the "
+    "set of namespaces disagree: remove_namespace() and add_namespace() "
+    "are documented to work on the CIM repository only and add_cimobjects() "
+    "stores instances without calling providers, so such states are "
+    "reachable with documented calls; the property quantifies over every "
+    "reachable state",
+    "the evidence classes nsprov:<call>:name-has:<relation>:<outcome> "
+    "describe what existed under the namespace name before the call "
+    "(namespace and/or CIM_Namespace instance, compared case-insensitively, "
+    "slashes stripped); they are bookkeeping of the generator, the oracle "
+    "does not use them",
     "user-defined providers are not part of the domain; the only registered "
     "provider is pywbem_mock's own CIMNamespaceProvider",
     "side state outside the repository (the class cache of the MOF "
@@ -107,6 +134,7 @@ SENSITIVITY = [
     "#pragma namespace also sets the connection's default namespace -> mof_batches/compile_mof_string:default-namespace-changed (58 hits), compile_mof_file:default-namespace-changed",
     "CIMNamespaceProvider.DeleteInstance removes the CIM_Namespace instance before remove_namespace() -> history/DeleteInstance:instance-removed:via-CIMNamespaceProvider (50 hits)",
     "modify_multi_namespace_instance updates each copy inside the existence-check loop -> history/ModifyInstance:instance-changed:association-across-namespaces (2 hits; needs a link with copies in the first but not the last referenced namespace)",
+    "seeded C11-4: CIMNamespaceProvider.CreateInstance runs its 'a CIM_Namespace instance with this Name exists' check after add_namespace() and outside the try/except that removes the namespace again (and BaseProvider._get_instances made effective) -> history/CreateInstance:namespace-added:via-CIMNamespaceProvider:raised-by-CIMError@_namespaceprovider (55 hits; needs a CIM_Namespace instance whose namespace does not exist: start states 'orphan-removed'/'orphan-added' or create-through-provider + remove_namespace() in the history)",
     "NOT observable: dispatcher ModifyInstance reporting a key change only after the provider call (the store then rejects the changed path with KeyError, nothing is written)",
 ]
 
@@ -1932,7 +1960,8 @@ class Gen:
         elif self.chance(20):
             name = '/' + name + '/'
         return {'op': 'add_namespace', 'name': name, 'fault': f,
-                'nsrel': self.v.ns_relation(name)}
+                'nsrel': self.v.ns_relation(name) if self.has_nsprov()
+                else None}
 
     def g_remove_namespace(self, registered=False):
         v = self.v
@@ -1958,7 +1987,8 @@ class Gen:
         else:
             name, f = BADNS, 'notfound'
         return {'op': 'remove_namespace', 'name': self.ns_spelling(name),
-                'fault': f, 'nsrel': v.ns_relation(name)}
+                'fault': f, 'nsrel': v.ns_relation(name)
+                if self.has_nsprov() else None}
 
     # ---- batches ----
 
@@ -2713,15 +2743,15 @@ class Machine:
             if op in ('CreateInstance', 'ModifyInstance', 'DeleteInstance'):
                 for t in self._traits(step):
                     classes.append('rejected-trait:' + t)
+            d = diff(before, after)
+            if d:
+                self._violation(step, d, before, after, exc)
         if step.get('nsrel'):
             # calls on the pairing namespace <-> CIM_Namespace instance:
             # what existed under that name before the call
             classes.append('nsprov:%s:name-has:%s:%s' % (
                 name, step['nsrel'], 'succeeded' if exc is None else
                 'raised'))
-            d = diff(before, after)
-            if d:
-                self._violation(step, d, before, after, exc)
         ctx.case(key=('step', self.init_fp, index, step),
                  nontrivial=nontrivial, classes=classes)
         self.snap = after
